@@ -250,6 +250,11 @@ fn gen_cmd(rng: &mut Rng, m: &Model, cx: &Ctx, force: Option<u64>) -> Cmd {
                     let cmd = *rng.pick(&["readDirectory", "stat", "readFile"]);
                     format!("fs {}", json!({"cmd":cmd,"path":format!("{}{}", a, within)}))
                 }
+                _ if rng.chance(1, 12) => {
+                    // a very large command in one websocket frame (17-20 MiB of padding): the server accepts messages of up to 1 GB
+                    let pad = "x".repeat((17 << 20) + rng.usize_below(3 << 20));
+                    format!("fs {}", json!({"cmd":"stat","path":"/tmp","padding":pad}))
+                }
                 _ => format!("fs {}", json!({"cmd":"bogus","path":5})),
             };
             Cmd { text: t, name: "fs".into(), kind: "fs", malformed: false }
